@@ -274,3 +274,31 @@ Print Assumptions C17_unfixed_orphan_loop_refuted.
 (** every fault position of one deletion, enumerated *)
 Example C17_all_fault_positions_example : ltac:(let t := type of pf_all_positions_1 in exact t).
 Proof. exact pf_all_positions_1. Qed.
+
+(** *** BatchWithFlusher over a backend whose n-th physical write fails (Flusher.v, batch.go):
+    the failure is returned by the Set / Delete / Write that triggered the flush (never
+    swallowed), the database holds exactly the first n-1 batches - a prefix of the operation's
+    writes ending at a cut position - and nothing issued later was applied. *)
+From IAVL Require Flusher FlusherFacts.
+
+Theorem C17_flusher_write_failure_reported :
+  forall (th : Z) (n : nat) (ops : list Flusher.bop),
+    FlusherFacts.keys_ok ops -> (1 <= n <= length (Flusher.fl_batches th ops))%nat ->
+    exists s, Flusher.ffl_commit th n ops = Flusher.FErr Flusher.EWriteFailed s /\
+              Flusher.nwrites s = n.
+Proof. exact FlusherFacts.fl_fault_reported. Qed.
+Print Assumptions C17_flusher_write_failure_reported.
+
+Theorem C17_flusher_write_failure_leaves_a_prefix :
+  forall (th : Z) (n : nat) (ops : list Flusher.bop) (s : Flusher.ffl),
+    Flusher.ffl_commit th n ops = Flusher.FErr Flusher.EWriteFailed s ->
+    Flusher.ffl_db_batches (Flusher.FErr Flusher.EWriteFailed s) =
+      firstn (n - 1) (Flusher.fl_batches th ops) /\
+    concat (Flusher.ffl_db_batches (Flusher.FErr Flusher.EWriteFailed s)) =
+      firstn (nth (n - 1) (0%nat :: Flusher.cut_positions th ops ++ [length ops]) (length ops)) ops /\
+    (forall m : VMap.kvs,
+       Flusher.kv_apply_batches m (Flusher.ffl_db_batches (Flusher.FErr Flusher.EWriteFailed s)) =
+       Flusher.kv_apply_ops m
+         (firstn (nth (n - 1) (0%nat :: Flusher.cut_positions th ops ++ [length ops]) (length ops)) ops)).
+Proof. exact FlusherFacts.fl_fault_prefix. Qed.
+Print Assumptions C17_flusher_write_failure_leaves_a_prefix.
